@@ -11,9 +11,12 @@
 package zzverif
 
 import (
+	"context"
 	"encoding/json"
 	"fmt"
+	"io"
 	"os"
+	"sort"
 	"strconv"
 	"strings"
 	"time"
@@ -262,3 +265,163 @@ func RunReplay(h func()) {
 // FiberHeader registers, for the engine, the value (*fiber.Ctx).Get(name) returns;
 // natively the harness builds a real Fiber context carrying the header.
 func FiberHeader(name, value string) {}
+
+// ---- file-system model hooks (engine); native equivalents use the real OS ----
+
+var tempDir string
+
+// TempPath returns a scratch path: /vtmp/<name> in the engine's file-system model,
+// a file inside a fresh temporary directory natively.
+func TempPath(name string) string {
+	if tempDir == "" {
+		d, err := os.MkdirTemp("", "verif-replay-")
+		if err != nil {
+			panic(err)
+		}
+		tempDir = d
+	}
+	return tempDir + "/" + name
+}
+func FSCrashPoints(on bool) {}
+func FSFaults(on bool)      {}
+func FSCrashed() bool       { return false }
+func FSFileBytes(path string) ([]byte, bool) {
+	b, err := os.ReadFile(path)
+	return b, err == nil
+}
+func FSList() []string { return nil }
+
+// ---- FakeBackend: an in-memory object store with the method set of storage.Backend
+// (plus AppendReader / DeleteBatch). It runs natively and under the engine; faults and
+// crash points are engine choices (Choice) so that every fault pattern is explored.
+
+type CrashSignal struct{ At string }
+
+type FakeBackend struct {
+	Files   map[string][]byte
+	Ops     []string
+	Faults  bool // every operation may fail
+	Crashes bool // every mutating operation is a crash point (panic(CrashSignal))
+	NoFault map[string]bool
+	Steps   int
+}
+
+func NewFakeBackend() *FakeBackend { return &FakeBackend{Files: map[string][]byte{}, NoFault: map[string]bool{}} }
+
+func (f *FakeBackend) step(op, path string, mutating bool) error {
+	f.Steps++
+	f.Ops = append(f.Ops, op+" "+path)
+	if mutating && f.Crashes && Choice("crash-before-"+op, 2) == 1 {
+		panic(CrashSignal{At: op + " " + path})
+	}
+	if f.Faults && !f.NoFault[op] && Choice("fault-"+op, 2) == 1 {
+		return fmt.Errorf("fake backend: injected %s failure", op)
+	}
+	return nil
+}
+
+func (f *FakeBackend) Write(ctx context.Context, path string, data []byte) error {
+	if err := f.step("write", path, true); err != nil {
+		return err
+	}
+	f.Files[path] = append([]byte(nil), data...)
+	return nil
+}
+func (f *FakeBackend) WriteReader(ctx context.Context, path string, r io.Reader, size int64) error {
+	if err := f.step("write", path, true); err != nil {
+		return err
+	}
+	b, err := io.ReadAll(r)
+	if err != nil {
+		return err
+	}
+	f.Files[path] = b
+	return nil
+}
+func (f *FakeBackend) AppendReader(ctx context.Context, path string, r io.Reader, appendSize int64) error {
+	return f.WriteReader(ctx, path, r, appendSize)
+}
+func (f *FakeBackend) Read(ctx context.Context, path string) ([]byte, error) {
+	if err := f.step("read", path, false); err != nil {
+		return nil, err
+	}
+	b, ok := f.Files[path]
+	if !ok {
+		return nil, fmt.Errorf("fake backend: %s: not found", path)
+	}
+	return append([]byte(nil), b...), nil
+}
+func (f *FakeBackend) ReadTo(ctx context.Context, path string, w io.Writer) error {
+	b, err := f.Read(ctx, path)
+	if err != nil {
+		return err
+	}
+	_, err = w.Write(b)
+	return err
+}
+func (f *FakeBackend) ReadToAt(ctx context.Context, path string, w io.Writer, offset int64) error {
+	b, err := f.Read(ctx, path)
+	if err != nil {
+		return err
+	}
+	if offset < 0 || offset >= int64(len(b)) {
+		return fmt.Errorf("fake backend: offset out of range")
+	}
+	_, err = w.Write(b[offset:])
+	return err
+}
+func (f *FakeBackend) StatFile(ctx context.Context, path string) (int64, error) {
+	if err := f.step("stat", path, false); err != nil {
+		return 0, err
+	}
+	b, ok := f.Files[path]
+	if !ok {
+		return -1, nil
+	}
+	return int64(len(b)), nil
+}
+func (f *FakeBackend) List(ctx context.Context, prefix string) ([]string, error) {
+	if err := f.step("list", prefix, false); err != nil {
+		return nil, err
+	}
+	var out []string
+	for p := range f.Files {
+		if strings.HasPrefix(p, prefix) {
+			out = append(out, p)
+		}
+	}
+	sort.Strings(out)
+	return out, nil
+}
+func (f *FakeBackend) Delete(ctx context.Context, path string) error {
+	if err := f.step("delete", path, true); err != nil {
+		return err
+	}
+	delete(f.Files, path)
+	return nil
+}
+func (f *FakeBackend) DeleteBatch(ctx context.Context, paths []string) error {
+	for _, p := range paths {
+		if err := f.Delete(ctx, p); err != nil {
+			return err
+		}
+	}
+	return nil
+}
+func (f *FakeBackend) Exists(ctx context.Context, path string) (bool, error) {
+	if err := f.step("exists", path, false); err != nil {
+		return false, err
+	}
+	_, ok := f.Files[path]
+	return ok, nil
+}
+func (f *FakeBackend) Close() error       { return nil }
+func (f *FakeBackend) Type() string       { return "fake" }
+func (f *FakeBackend) ConfigJSON() string { return "{}" }
+
+// LargeAllocAs(k): engine bound — make([]T, n) with a symbolic n > k is represented by
+// one slice of k+1 elements (sound when behaviour is the same for every n > k).
+func LargeAllocAs(k int) {}
+
+// ClockFixed(ns): under the engine time.Now() returns this constant (ns < 0: symbolic again).
+func ClockFixed(ns int64) {}
